@@ -330,12 +330,16 @@ func oneStep(rec *evid.Rec) {
 	stores := []store{
 		{"History", 2 * 64 * 64, h.Clear,
 			func(c int, b chess.Score) { h.Add(chess.Color(c>>12), chess.Square(c>>6&63), chess.Square(c&63), b) },
-			func(c int) chess.Score { return h.LookUp(chess.Color(c>>12), chess.Square(c>>6&63), chess.Square(c&63)) }},
+			func(c int) chess.Score {
+				return h.LookUp(chess.Color(c>>12), chess.Square(c>>6&63), chess.Square(c&63))
+			}},
 		{"CaptHist", 6 * 5 * 64, ch.Clear,
 			func(c int, b chess.Score) {
 				ch.Add(chess.Piece(1+c/320), chess.Piece(1+c/64%5), chess.Square(c&63), b)
 			},
-			func(c int) chess.Score { return ch.LookUp(chess.Piece(1+c/320), chess.Piece(1+c/64%5), chess.Square(c&63)) }},
+			func(c int) chess.Score {
+				return ch.LookUp(chess.Piece(1+c/320), chess.Piece(1+c/64%5), chess.Square(c&63))
+			}},
 		{"Continuation", 6 * 64 * 6 * 64, co.Clear,
 			func(c int, b chess.Score) {
 				co.Add(chess.White, chess.Piece(1+c/(64*6*64)), chess.Square(c/(6*64)%64), chess.Piece(1+c/64%6), chess.Square(c&63), b)
